@@ -6,12 +6,12 @@ CONSTANTS
   Cfg <- CfgEnd3
   MaxLive = 3
   MaxNum = 1
-  MaxNow = 1
-  MaxTx = 1
+  MaxNow = 2
+  MaxTx = 2
   MaxBal = 2
-  Kinds <- KindsSibQ
+  Kinds <- KindsSibM
   Ords <- OrdId3
-  Window = TRUE
+  Window = FALSE
   NumOf <- Flat
 INVARIANT TypeOK
 INVARIANT CacheCoherent
